@@ -2,6 +2,7 @@
 import datetime as D
 from fractions import Fraction
 
+import numpy
 from hypothesis import strategies as st
 
 from pbt.core import call
@@ -56,6 +57,10 @@ except Exception:  # noqa: BLE001 - no zone database
     ZONEINFO_UTC = None
 
 
+class OwnDatetime(D.datetime):
+    """a user's datetime subclass: is-a datetime"""
+
+
 def ms_to_dt(ms):
     return EPOCH + D.timedelta(milliseconds=ms)
 
@@ -108,6 +113,18 @@ def check_ms(ctx, mss):
             variants += [("aware_timezone_zero", want_dt.replace(tzinfo=D.timezone(D.timedelta(0)))), ("aware_own_tzinfo", want_dt.replace(tzinfo=OWN_UTC))]
             if ZONEINFO_UTC is not None:
                 variants.append(("aware_zoneinfo", want_dt.replace(tzinfo=ZONEINFO_UTC)))
+        if ms % 11 == 0:
+            # the same instant as a datetime *subclass* instance (pandas.Timestamp is what a DataFrame column hands out)
+            import pandas
+            naive = want_dt.replace(tzinfo=None)
+            variants += [("pandas_timestamp_naive", pandas.Timestamp(naive)), ("pandas_timestamp_utc", pandas.Timestamp(naive, tz="UTC")),
+                         ("datetime_subclass_naive", OwnDatetime(*naive.timetuple()[:6], naive.microsecond)),
+                         ("datetime_subclass_utc", OwnDatetime(*naive.timetuple()[:6], naive.microsecond, tzinfo=D.timezone.utc))]
+            on = call(T.epoch_time_to_utc_datetime, numpy.int64(ms))      # the catalog's origin_time column holds numpy.int64
+            if not on.ok:
+                ctx.unexpected(on, "epoch_time_to_utc_datetime:numpy_int64", one(ms))
+            elif on.value != want_dt:
+                ctx.violation("epoch_to_datetime_wrong:numpy_int64", {"ms": ms, "got": str(on.value)}, one(ms))
         for tag, d in variants:
             o3 = call(T.datetime_to_utc_epoch, d)
             if not o3.ok:
